@@ -260,13 +260,18 @@ func (s *Session) handleNodeDown(ip net.IP, port int) {
 
 	host, ok := s.ring.getHostByIP(ip.String())
 	if ok {
-		host.setState(NodeDown)
-		if s.cfg.filterHost(host) {
-			return
-		}
-
-		s.policy.HostDown(host)
-		hostID := host.HostID()
-		s.pool.removeHost(hostID)
+		s.handleHostDown(host)
 	}
+}
+
+// handleHostDown marks the host as down and removes it from the policy and the pool.
+func (s *Session) handleHostDown(host *HostInfo) {
+	host.setState(NodeDown)
+	if s.cfg.filterHost(host) {
+		return
+	}
+
+	s.policy.HostDown(host)
+	hostID := host.HostID()
+	s.pool.removeHost(hostID)
 }
